@@ -145,6 +145,7 @@ type Result struct {
 	Events       int            `json:"events"`
 	Exhaustive   bool           `json:"exhaustive"`
 	Findings     []Finding      `json:"findings"`
+	kept         int
 	WallS        float64        `json:"wall_s"`
 	Notes        []string       `json:"notes,omitempty"`
 
@@ -186,6 +187,16 @@ func (r *Result) Sample(v interface{}) {
 	r.mu.Lock()
 	defer r.mu.Unlock()
 	if len(r.Samples) < 6 {
+		r.Samples = append(r.Samples, Canon(v))
+	}
+}
+
+// SampleKeep records a sample of a rare kind even when the ordinary sample slots are taken (at most 10).
+func (r *Result) SampleKeep(v interface{}) {
+	r.mu.Lock()
+	defer r.mu.Unlock()
+	if r.kept < 10 {
+		r.kept++
 		r.Samples = append(r.Samples, Canon(v))
 	}
 }
